@@ -115,6 +115,29 @@ func (c14) Gen(rs uint64, tier string, race bool) interface{} {
 		}
 		cols[k] = col
 	}
+	if a.Alphabet == align.NUCLEOTIDS && !tall && r.Chance(0.06) {
+		// a codon alignment: every gap is a whole codon (the codon-by-codon mutation list has insertions and deletions
+		// to report, and no frame shift)
+		l = 3 * r.Range(1, 5)
+		cols = make([][]byte, l)
+		for k := range cols {
+			cols[k] = make([]byte, n)
+		}
+		for i := 0; i < n; i++ {
+			for cd := 0; cd < l/3; cd++ {
+				cod := []byte{"ACGT"[r.Intn(4)], "ACGT"[r.Intn(4)], "ACGT"[r.Intn(4)]}
+				if r.Chance(0.5) {
+					cod = []byte([]string{"ATG", "GCT", "GCT", "TGG", "CCG", "TAA"}[r.Intn(6)]) // few kinds: rows often agree
+				}
+				if r.Chance(0.25) {
+					cod = []byte("---")
+				}
+				for j := 0; j < 3; j++ {
+					cols[3*cd+j][i] = cod[j]
+				}
+			}
+		}
+	}
 	for i := 0; i < n; i++ {
 		s := make([]byte, l)
 		for k := range s {
@@ -1169,6 +1192,71 @@ func (c14) Run(ctx *Ctx, ci interface{}) (o Outcome) {
 				return "", false
 			}
 			return t.Sequence(), true
+		}
+		// codon-aligned pairs (every gap a whole codon, in the reference and in the row): per codon, an insertion
+		// ("-", position of the reference codon before it), a deletion, or a substitution of the amino acid
+		codonAligned := func(q string) bool {
+			if len(q)%3 != 0 || strings.ToUpper(q) != q {
+				return false
+			}
+			for k := 0; k+3 <= len(q); k += 3 {
+				if g := strings.Count(q[k:k+3], "-"); g != 0 && g != 3 {
+					return false
+				}
+				if strings.ContainsAny(q[k:k+3], "*.") {
+					return false
+				}
+			}
+			return true
+		}
+		if codonAligned(ref) && strings.Contains(ref+strings.Join(a.Seqs, ""), "-") && len(got) == n {
+			aaOf := func(cod string) (byte, bool) {
+				t, err := align.NewSequence("x", []uint8(cod), "").Translate(0, 0)
+				if err != nil || t.Length() != 1 {
+					return 0, false
+				}
+				return t.SequenceChar()[0], true
+			}
+			for i := 0; i < n; i++ {
+				q := a.Seqs[i]
+				if !codonAligned(q) || len(q) != len(ref) {
+					continue
+				}
+				want, refi, ok := "", 0, true
+				for k := 0; k+3 <= len(ref) && ok; k += 3 {
+					rc, qc := ref[k:k+3], q[k:k+3]
+					switch {
+					case rc == "---" && qc == "---":
+					case rc == "---":
+						var x byte
+						if x, ok = aaOf(qc); ok {
+							want += fmt.Sprintf("-%d%c,", refi-1, x)
+						}
+					default:
+						ra, ok1 := aaOf(rc)
+						if ok = ok1; !ok {
+							break
+						}
+						if qc == "---" {
+							want += fmt.Sprintf("%c%d-,", ra, refi)
+						} else if x, ok2 := aaOf(qc); !ok2 {
+							ok = false
+						} else if x != ra {
+							want += fmt.Sprintf("%c%d%c,", ra, refi, x)
+						}
+						refi++
+					}
+				}
+				if !ok {
+					continue
+				}
+				want += "<nil>"
+				o.Add("codon_aligned_mutation_lists_checked", 1)
+				if got[i] != want {
+					o.Fail("definition:ListMutationsComparedToReferenceSequence.aa", "row %d against reference row %d, codon by codon, every gap a whole codon: %s reported, %s by definition\n%s", i, c.Ref, got[i], want, desc())
+					return
+				}
+			}
 		}
 		if raa, ok := tr(ref); ok && !strings.Contains(ref, "-") && len(got) == n {
 			for i := 0; i < n; i++ {
